@@ -681,6 +681,8 @@ def describe(case):
     ar = a["kind"] + (f"/{a['method']}" if a["kind"] == "cvt" else "") + sk(a) + \
         (f"/{a['samples']} samples" if a.get("samples", 160) != 160 else "")
     ems = ",".join(e["kind"] + (f"[{e['es']},{e['ranker']}{':' + e['rform'] if e.get('rform', 'abbr') != 'abbr' else ''}]" if e["kind"] in ("es", "ga") else "")
+                   + (f"[{e.get('op')},mg={int(bool(e.get('mg')))},{e.get('start', '')}]" if e["kind"] == "gop" else "")
+                   + (f"[{e.get('op')}]" if e["kind"] == "gen" else "")
                    + (sk(e) if seed_kind(e) != "int" else "") + ("/tight-bounds" if e.get("bounds") == "tight" else "")
                    for e in case["emitters"])
     kw = ""
